@@ -36,6 +36,14 @@ func verifWitnesses() []verifWitness {
 			vs.WManualVIP(16, "api", "10.77.0.2"),
 			vs.WManualVIP(17, "db", "10.77.0.1", "10.77.0.2"),
 		}})
+	out = append(out, verifWitness{"C01", "witness-config-graph-error-text", "C01/result-differs/ConfigEntry/field=error-text",
+		"a rejected config entry write reports whichever broken discovery chain the map iteration reaches first", &vs.FCmd{Kind: "plan", SkewNS: 1e9, Reps: 16}, []*vs.FCmd{
+			vs.WConfig(11, &structs.ProxyConfigEntry{Kind: structs.ProxyDefaults, Name: structs.ProxyConfigGlobal, Config: map[string]interface{}{"protocol": "http"}}),
+			vs.WConfig(12, &structs.ServiceRouterConfigEntry{Kind: structs.ServiceRouter, Name: "db", Routes: []structs.ServiceRoute{{
+				Match: &structs.ServiceRouteMatch{HTTP: &structs.ServiceRouteHTTPMatch{PathPrefix: "/v1"}}, Destination: &structs.ServiceRouteDestination{Service: "web"}}}}),
+			vs.WConfig(13, &structs.ServiceSplitterConfigEntry{Kind: structs.ServiceSplitter, Name: "web", Splits: []structs.ServiceSplit{{Weight: 100, Service: "api"}}}),
+			vs.WConfig(14, &structs.ServiceSplitterConfigEntry{Kind: structs.ServiceSplitter, Name: "api", Splits: []structs.ServiceSplit{{Weight: 100, Service: "web"}}}),
+		}})
 	// ---- C02
 	out = append(out, verifWitness{"C02", "witness-manual-vips-lost", "C02/query=ServiceManualVIPs/field=ManualIPs",
 		"manual virtual IPs are not restored", end(3), []*vs.FCmd{
